@@ -412,7 +412,7 @@ ZoneOf(v, a, b, cc) ==
                            coded == NormE({e \in W : IsS(e) /\ Len(e.p) <= 1})
                            intended == NormE({e \in W : IsS(e)})
                        IN SO = coded /\ coded # intended
-  IN CASE law = "NoRaise" /\ f = "flat" /\ m \in {"diff", "both"} /\ contUnderList -> "flat-container-under-list"
+  IN CASE law = "NoRaise" /\ f = "flat" /\ m # "eq" /\ contUnderList -> "flat-container-under-list"
        [] law \in {"NoRaise", "Descent", "AgreesWithRef", "Sound", "NestedAgreesFlat"} /\ m # "eq" /\ symVsPgList -> "sym-vs-pglist"
        [] law = "Symmetric" /\ (symVsPgList \/ pgListVsSym) -> "sym-vs-pglist"
        [] law = "FlatIsFlat" /\ (\E p \in nodes : listNode(p)) -> "list-node"
